@@ -353,6 +353,7 @@ static int do_replay(Property *p, const std::string &path, bool verbose) {
   return r.violations.empty() ? 0 : 1;
 }
 
+static uint64_t g_from = 0;
 static int run_batch(Property *p, bool thorough, uint64_t seed, int jobs, double budget_s, uint64_t max_runs, bool write_evidence) {
   mkdirs();
   double t0 = real_s();
@@ -400,7 +401,8 @@ static int run_batch(Property *p, bool thorough, uint64_t seed, int jobs, double
     ws[w].in_run = false;
   };
   load_corpus(p->id);
-  for (int w = 0; w < jobs; w++) { ws[w].next = g_corpus.empty() ? (uint64_t)w : CORPUS_BASE + (uint64_t)w; spawn(w); }
+  if (g_from) g_corpus.clear();
+  for (int w = 0; w < jobs; w++) { ws[w].next = g_corpus.empty() ? g_from + (uint64_t)w : CORPUS_BASE + (uint64_t)w; spawn(w); }
 
   uint64_t evaluations = 0, total_events = 0, total_sim_us = 0, mismatches = 0, fam_done = 0, corpus_done = 0;
   std::unordered_set<uint64_t> distinct_all, distinct_nt;
@@ -699,6 +701,7 @@ int runner_main(int argc, char **argv) {
     else if (a == "--seed" && i + 1 < argc) seed = strtoull(argv[++i], nullptr, 10);
     else if (a == "--no-evidence") evidence = false;
     else if (a == "--plan-only") plan_only = true;
+    else if (a == "--from" && i + 1 < argc) g_from = strtoull(argv[++i], nullptr, 10);
     else if (a == "-v") verbose = true;
   }
   if (const char *s = getenv("VERIF_TIER")) { if (mode == "batch" && std::string(s) == "thorough") thorough = true; }
